@@ -25,8 +25,8 @@ ASSUMPTIONS = [
 ]
 
 CFG = st.builds(
-    lambda w, d, mkl, phi: {"kind": "hh", "width": w, "depth": d, "max_key_len": mkl, "phi": phi},
-    st.sampled_from([1, 2, 2, 3, 4, 8]), st.integers(1, 3), st.sampled_from([2, 3, 4, 8]), st.sampled_from([None, None, 0.05, 0.3]),
+    lambda w, d, mkl, phi, at: {"kind": "hh", "width": w, "depth": d, "max_key_len": mkl, "phi": phi, **({"argtype": at} if at else {})},
+    st.sampled_from([1, 2, 2, 3, 4, 8, 70]), st.integers(1, 4), st.sampled_from([2, 3, 4, 8]), st.sampled_from([None, None, 0.05, 0.3]), st.sampled_from([None, None, None, "u8", "i8", "u32", "i64", "u64", "i32"]),
 )
 VALUES = st.one_of(st.sampled_from([0, 1, 1, 2, 3, 5, 20]), st.integers(0, 12))
 KS = st.sampled_from([1, 2, 3, 10**9, 10**9])
